@@ -299,6 +299,8 @@ struct Exec<'a> {
     any_hard_fault_non_flush: bool,
     /// the session was opened under full oracles (not after corruption etc.)
     session_clean: bool,
+    /// images of earlier restarts of this run (for the lost-write corruption)
+    earlier_images: Vec<Vec<u8>>,
 }
 
 fn fault_free() -> DiskCfg {
@@ -1302,7 +1304,13 @@ impl<'a> Exec<'a> {
                 Edit::Corrupt(spec) => {
                     let mut rng = Prng::new(self.aux(21));
                     let before_len = image.len();
-                    let applied = spec.apply(image, &mut rng);
+                    let applied = match spec {
+                        crate::corrupt::CorruptSpec::StaleSector(ppm) => match self.earlier_images.last() {
+                            Some(e) => crate::corrupt::CorruptSpec::apply_stale(*ppm, image, e),
+                            None => false,
+                        },
+                        _ => spec.apply(image, &mut rng),
+                    };
                     if std::env::var_os("MSISIM_DEBUG").is_some() {
                         eprintln!("debug: corruption {:?} applied={} image {} -> {} bytes", spec, applied, before_len, image.len());
                         let _ = std::fs::write("/tmp/msisim_debug_image.msi", &image[..]);
@@ -1469,7 +1477,12 @@ impl<'a> Exec<'a> {
             }
         }
         self.model.on_save();
+        let pristine = image.clone();
         self.apply_edits(&mut image, edits);
+        if self.earlier_images.len() >= 2 {
+            self.earlier_images.remove(0);
+        }
+        self.earlier_images.push(pristine);
         let phase = if mode == CloseMode::FlushCrash { Phase::CrashAfterFlush } else { Phase::Reopen };
         self.verify_image(&image, phase);
         if self.done {
@@ -1785,6 +1798,7 @@ pub fn run(trace: &Trace, cfg: &ExecCfg) -> RunResult {
         time_before_close: None,
         any_hard_fault_non_flush: false,
         session_clean: false,
+        earlier_images: Vec::new(),
     };
     match &trace.init {
         Init::Create(pt) => {
